@@ -606,11 +606,12 @@ def _compose_qoperations_MProcess_State_for_States(
             ps.append(p_x)
 
     # normalize prob dist
+    ps_raw = list(ps)
     if truncate and np.sum(ps) != 0:
         ps = ps / np.sum(ps)
 
-    # calc rho_x(vec of State) after normalization
-    for Mx_rho, p_x in zip(Mx_rhos, ps):
+    # calc rho_x(vec of State): each post state is normalized by its own (unrenormalized) probability
+    for Mx_rho, p_x in zip(Mx_rhos, ps_raw):
         if p_x == 0:
             rho_x = np.zeros(elem2.vec.shape, dtype=elem2.vec.dtype)
             state = State(
